@@ -74,6 +74,23 @@ func genC04(r *Rng) *Plan {
 			}
 			p.Steps = append(p.Steps, rs)
 		}
+		if r.Chance(1, 8) {
+			// an outage followed by a definite answer: unavailable at one due check, denied (or fine) at the next
+			ep := r.Pick("validate", "validate", "refresh", "profile")
+			p.Steps = append(p.Steps, Step{Op: "l2", Endpoint: ep, Sticky: true, L2: []L2Answer{l2Answer(r.Pick("429", "503"))}})
+			p.Steps = append(p.Steps, Step{Op: "get", B: "b1", Host: host, Target: "/during-outage", Dt: posDur(landmark(r, cfg))})
+			p.Steps = append(p.Steps, Step{Op: "l2", Sub: "clear"})
+			switch r.Intn(4) {
+			case 0:
+				p.Steps = append(p.Steps, Step{Op: "idp", Sub: "revoke", User: "alice@example.com"})
+			case 1:
+				p.Steps = append(p.Steps, Step{Op: "l2", Endpoint: r.Pick("validate", "refresh"), Sticky: true, L2: []L2Answer{l2Answer(r.Pick("401", "403", "500"))}})
+			case 2:
+				p.Steps = append(p.Steps, Step{Op: "idp", Sub: "setgroups", User: "alice@example.com", Groups: []string{"ops"}})
+			}
+			p.Steps = append(p.Steps, Step{Op: "get", B: "b1", Host: host, Target: "/after-outage", Dt: posDur(r.PickDur(cfg.ValidTTL+3*time.Second, cfg.GraceTTL/2, cfg.TokenTTL+3*time.Second))})
+			p.Steps = append(p.Steps, Step{Op: "l2", Sub: "clear"})
+		}
 		st := Step{Op: "get", B: "b1", Host: host, Target: r.Pick(somePaths...), Dt: posDur(landmark(r, cfg))}
 		if r.Chance(1, 10) {
 			// a fresh interactive login (the user clicks "Sign in" again)
@@ -93,6 +110,20 @@ func genC05(r *Rng) *Plan {
 	p.Steps = append(p.Steps, Step{Op: "login", B: "b1", User: "alice@example.com", Host: host, Target: "/"})
 	mode := r.Pick("middlebox", "middlebox", "organic", "mixed")
 	p.Gen = mode
+	if r.Chance(1, 4) {
+		// two episodes: an outage that is survived, a successful check that ends it, and — more than one
+		// grace TTL after the first failure — a second outage, which must get a grace period of its own
+		p.Gen += "+two-episodes"
+		ep1 := r.Pick("validate", "validate", "profile", "refresh")
+		p.Steps = append(p.Steps, Step{Op: "l2", Endpoint: ep1, Sticky: true, L2: []L2Answer{l2Answer(r.Pick("429", "503"))}})
+		p.Steps = append(p.Steps, Step{Op: "get", B: "b1", Host: host, Target: "/episode-1", Dt: r.PickDur(cfg.ValidTTL+3*time.Second, cfg.TokenTTL+3*time.Second)})
+		p.Steps = append(p.Steps, Step{Op: "l2", Sub: "clear"})
+		p.Steps = append(p.Steps, Step{Op: "get", B: "b1", Host: host, Target: "/recovered", Dt: cfg.ValidTTL + 3*time.Second})
+		p.Steps = append(p.Steps, Step{Op: "l2", Endpoint: r.Pick("validate", "validate", "profile", "refresh"), Sticky: true, L2: []L2Answer{l2Answer(r.Pick("429", "503"))}})
+		p.Steps = append(p.Steps, Step{Op: "get", B: "b1", Host: host, Target: "/episode-2", Dt: cfg.GraceTTL + r.PickDur(cfg.ValidTTL+5*time.Second, cfg.TokenTTL+5*time.Second)})
+		p.Steps = append(p.Steps, Step{Op: "get", B: "b1", Host: host, Target: "/episode-2-still", Dt: r.PickDur(cfg.ValidTTL+3*time.Second, cfg.GraceTTL-5*time.Second, cfg.GraceTTL+5*time.Second)})
+		p.Steps = append(p.Steps, Step{Op: "l2", Sub: "clear"})
+	}
 	n := r.Range(4, 24)
 	outage := 0 // remaining requests of the current outage
 	for i := 0; i < n; i++ {
@@ -117,6 +148,12 @@ func genC05(r *Rng) *Plan {
 			}
 		}
 		p.Steps = append(p.Steps, Step{Op: "get", B: "b1", Host: host, Target: r.Pick("/", "/x?y=1", "/oauth2/auth"), Dt: gap})
+		if outage > 1 && r.Chance(1, 3) {
+			// the outage changes face: another answer (or another endpoint) at the next due check
+			p.Steps = append(p.Steps, Step{Op: "l2", Sub: "clear"})
+			p.Steps = append(p.Steps, Step{Op: "l2", Endpoint: r.Pick("validate", "profile", "refresh"), Sticky: true,
+				L2: []L2Answer{l2Answer(r.Pick("429", "503", "401", "500", "403", "200junk"))}})
+		}
 		if outage > 0 {
 			outage--
 			if outage == 0 {
@@ -164,6 +201,22 @@ func genC01(r *Rng) *Plan {
 		if i == 0 || r.Chance(1, 2) {
 			p.Steps = append(p.Steps, Step{Op: "login", B: b, User: users[r.Intn(len(users))], Host: hosts[r.Intn(nUp)], Target: "/"})
 		}
+	}
+	if r.Chance(1, 6) {
+		// two devices of one user, one of them revoked at the identity provider; both requests are due for
+		// a check and overlap in time (the first one's call to the authenticator is still in flight)
+		p.Gen = "mediation+twin"
+		h := hosts[0]
+		p.Steps = append(p.Steps, Step{Op: "login", B: "t1", User: "alice@example.com", Host: h, Target: "/"})
+		p.Steps = append(p.Steps, Step{Op: "login", B: "t2", User: "alice@example.com", Host: h, Target: "/"})
+		p.Steps = append(p.Steps, Step{Op: "idp", Sub: "revoke-browser", B: "t2"})
+		due := r.PickDur(cfg.ValidTTL+3*time.Second, cfg.TokenTTL+3*time.Second)
+		first, second := "t1", "t2"
+		if r.Chance(1, 3) {
+			first, second = "t2", "t1"
+		}
+		p.Steps = append(p.Steps, Step{Op: "get", B: first, Host: h, Target: r.Pick("/", "/private/x", "/oauth2/auth"), Dt: due,
+			Twin: &Step{Op: "get", B: second, Host: h, Target: r.Pick("/", "/private/y", "/oauth2/auth")}})
 	}
 	n := r.Range(6, 30)
 	for i := 0; i < n; i++ {
